@@ -12,6 +12,7 @@ import (
 	"sort"
 	"strings"
 	"sync/atomic"
+	"time"
 
 	"github.com/moby/patternmatcher"
 	"github.com/tonistiigi/fsutil"
@@ -637,6 +638,30 @@ func runC18(r *evid.Run) {
 			}
 			if merr != nil {
 				continue // the in-memory FS reports a wildcard below a non-directory as an error (acceptable, see the oracle); nothing to compare with
+			}
+			// the budgeted run has shown that the resolution terminates; the comparison uses the FS value exactly as
+			// NewFS returned it (code that recognises its own FS type must see it), bounded by a generous timeout
+			type fl struct {
+				res []string
+				err error
+			}
+			ch := make(chan fl, 1)
+			go func() {
+				defer func() {
+					if rec := recover(); rec != nil {
+						ch <- fl{nil, fmt.Errorf("panic: %v", rec)}
+					}
+				}()
+				rr, ee := fsutil.FollowLinks(dfs, l)
+				ch <- fl{rr, ee}
+			}()
+			select {
+			case x := <-ch:
+				dres, derr = x.res, x.err
+			case <-time.After(60 * time.Second):
+				c := c18Case{Tree: trees[ti], Requests: l, Disk: true}
+				r.Violate("no-termination", c.String()+": no answer within 60s over the on-disk tree as NewFS returned it", c)
+				return
 			}
 			if derr != nil || fmt.Sprint(mres) != fmt.Sprint(dres) {
 				c := c18Case{Tree: trees[ti], Requests: l, Disk: true}
